@@ -273,11 +273,26 @@ class Run:
                 cell = w.prefix + b"\x00" + struct.pack(">I", cid) + b"\x00\x00" + keys.encrypt_str(msg, op[3] % 2)
             src = adjacent.address if (op[3] & 2 and adjacent is not None) else ("6.6.6.6", 6000)
             before = w.routing_digest()
+
+            def counters() -> dict:
+                # traffic / liveness bookkeeping of the entries that authenticate what they receive (the originator's
+                # circuit and the exit socket; a relay forwards - and counts - cells it cannot authenticate by design)
+                out = {}
+                for tbl in ("circuits", "exit_sockets"):
+                    ent = getattr(node.overlay, tbl).get(cid)
+                    if ent is not None:
+                        out[tbl] = (ent.bytes_up, ent.bytes_down, ent.last_activity)
+                return out
+            counters_before = counters()
             sent_before = sum(len(t.sent) for t in self.loop.transports)
             raw_before = sum(len(v) for v in self.raw.values())
             w.net.inject(src, node.address, cell)
             await w.net.settle()
             self.same(before, i, op, "forged_cell:" + ekind)
+            if counters() != counters_before:
+                self.fail("J1", "forged_cell:counters:" + ekind,
+                          f"a cell forged without the circuit's keys changed the traffic / activity bookkeeping of the "
+                          f"{ekind} entry from {counters_before} to {counters()}")
             if sum(len(t.sent) for t in self.loop.transports) != sent_before or \
                     sum(len(v) for v in self.raw.values()) != raw_before:
                 self.fail("J1", "forged_cell:" + ekind, "a cell forged without the circuit's keys caused a delivery")
